@@ -5,7 +5,9 @@ import (
 	"encoding/hex"
 	"encoding/json"
 	"fmt"
+	"go.etcd.io/bbolt"
 	"os"
+	"path/filepath"
 	"reflect"
 	"strconv"
 
@@ -57,6 +59,10 @@ func c05Row(family string, n int) func(i int) model.Row {
 			}
 			return r
 		}
+	case "exact": // exactly n distinct (column,value) pairs in one column: totals that are exact multiples of the batch size
+		return func(i int) model.Row { return model.Row{"v": strconv.Itoa(i)} }
+	case "exact2": // 600 + 400 = exactly 1000 pairs spread over two columns (n must be 1200)
+		return func(i int) model.Row { return model.Row{"v": strconv.Itoa(i % 600), "u": strconv.Itoa(i % 400)} }
 	case "vals": // more than 1000 distinct values in two columns, no unique column; n rows
 		return func(i int) model.Row {
 			return model.Row{"p": "v" + strconv.Itoa(i%1201), "q": strconv.Itoa((i * 7) % 1103), "k": strconv.Itoa(i % 3)}
@@ -193,6 +199,86 @@ func c05CheckDataset(ctx *rt.Ctx, family string, rows []model.Row, n int, full b
 		removeFile(path)
 	}
 	return nil
+}
+
+// c05Multi: one IndexWriter written out several times (both output paths), with more rows added in between: every output
+// must be the complete index of the rows added so far, and ids keep counting.
+func c05Multi(ctx *rt.Ctx) *rt.Violation {
+	dir := ctx.TempDir("multi")
+	defer os.RemoveAll(dir)
+	rowf := c05Row("n", 0)
+	w := updog.NewIndexWriter(filepath.Join(dir, "flush.updog"))
+	n := 0
+	add := func(k int) string {
+		for i := 0; i < k; i++ {
+			id, err := w.AddRow(rowf(n))
+			if err != nil || id != uint32(n) {
+				return fmt.Sprintf("AddRow #%d returned id %d, %v", n, id, err)
+			}
+			n++
+		}
+		return ""
+	}
+	check := func(step, path string) *rt.Violation {
+		d := model.NewData(n)
+		for i := 0; i < n; i++ {
+			for k, v := range rowf(i) {
+				d.Add(i, k, v)
+			}
+		}
+		c := c05Case{Family: "multi", N: n, History: []string{step}}
+		for _, pre := range []bool{false, true} {
+			idx, err := ix.Open(path, pre, nil)
+			if err != nil {
+				return rt.NewViolation("C05", "multi", c.sig()+" open", c, "output of %s does not open: %v", step, err)
+			}
+			probe, msg := c05Probes(d, idx, false, ctx.Cov)
+			idx.Close()
+			if msg != "" {
+				c.Probe, c.Preload = probe, pre
+				return rt.NewViolation("C05", "multi", c.sig(), c, "output of %s: %s", step, msg)
+			}
+		}
+		return nil
+	}
+	toDB := func(name string) (string, string) {
+		p := filepath.Join(dir, name)
+		db, err := bbolt.Open(p, 0o644, nil)
+		if err != nil {
+			return p, err.Error()
+		}
+		defer db.Close()
+		if err := w.WriteToBoltDatabase(db); err != nil {
+			return p, err.Error()
+		}
+		return p, ""
+	}
+	if m := add(1100); m != "" {
+		return rt.NewViolation("C05", "multi", "multi add", c05Case{Family: "multi"}, "%s", m)
+	}
+	for _, name := range []string{"db1.updog", "db2.updog"} {
+		p, m := toDB(name)
+		if m != "" {
+			return rt.NewViolation("C05", "multi", "multi "+name, c05Case{Family: "multi"}, "WriteToBoltDatabase failed: %s", m)
+		}
+		if v := check("WriteToBoltDatabase("+name+")", p); v != nil {
+			return v
+		}
+	}
+	if err := w.Flush(); err != nil {
+		return rt.NewViolation("C05", "multi", "multi flush", c05Case{Family: "multi"}, "Flush after WriteToBoltDatabase failed: %v", err)
+	}
+	if v := check("Flush after two WriteToBoltDatabase", filepath.Join(dir, "flush.updog")); v != nil {
+		return v
+	}
+	if m := add(50); m != "" {
+		return rt.NewViolation("C05", "multi", "multi add2", c05Case{Family: "multi"}, "%s", m)
+	}
+	p, m := toDB("db3.updog")
+	if m != "" {
+		return rt.NewViolation("C05", "multi", "multi db3", c05Case{Family: "multi"}, "WriteToBoltDatabase failed: %s", m)
+	}
+	return check("WriteToBoltDatabase(db3) after 50 more rows", p)
 }
 
 func fileSum(p string) string {
@@ -350,6 +436,12 @@ func c05Worker(ctx *rt.Ctx, job *rt.Job) []*rt.Violation {
 				break
 			}
 		}
+	case "multi":
+		if v := c05Multi(ctx); v != nil {
+			return []*rt.Violation{v}
+		}
+		ctx.Cov.Add("distinct_nontrivial", 1)
+		ctx.Cov.Sample(1, map[string]any{"family": "multi", "history": "AddRow x1100; WriteToBoltDatabase(db1); WriteToBoltDatabase(db2); Flush(file); AddRow x50; WriteToBoltDatabase(db3)"})
 	case "reopen":
 		if v := c05Reopen(ctx, "n", a.N, ix.Writer(a.Writer), a.Depth); v != nil {
 			return []*rt.Violation{v}
@@ -385,6 +477,11 @@ func c05Run(ctx *rt.Ctx) []*rt.Violation {
 	for _, n := range []int{1300, 2500, 1103} {
 		add(fmt.Sprintf("vals%d", n), c05Args{Family: "vals", N: n}, 1)
 	}
+	for _, n := range []int{3000, 2000, 1001, 1000, 999} {
+		add(fmt.Sprintf("exact%d", n), c05Args{Family: "exact", N: n}, 1)
+	}
+	add("exact2", c05Args{Family: "exact2", N: 1200}, 1)
+	add("multi", c05Args{Family: "multi"}, 1)
 	depth := 5
 	if ctx.Thorough() {
 		depth = 7
@@ -410,6 +507,9 @@ func c05Replay(ctx *rt.Ctx, v *rt.Violation) *rt.Violation {
 	var c c05Case
 	if err := json.Unmarshal(v.Case, &c); err != nil {
 		rt.Harnessf("case: %v", err)
+	}
+	if c.Family == "multi" {
+		return c05Multi(ctx)
 	}
 	if c.Family == "reopen" || len(c.History) > 0 {
 		return c05Reopen(ctx, "n", c.N, ix.Writer(c.Writer), len(c.History))
